@@ -156,8 +156,14 @@ DECOR = [
 ]
 
 
+# a text handed to add_sub_spec() is a specification text of its own: its final ';' may be omitted
+DECOR_NO_SEMICOLON = [lambda t: t, lambda t: t + '\n', lambda t: t + ' // the last line']
+
+
 def decorate(case, i, t):
     d = case.get('decor')
+    if d and case.get('delivery') == 'add_sub_spec' and d[(i + 1) % len(d)] % 3 == 0:
+        return DECOR_NO_SEMICOLON[d[i % len(d)] % 3](t)
     return DECOR[d[i % len(d)]](t) if d else t + ';'
 
 
